@@ -253,6 +253,9 @@ func (c *X2Config) Run(deadline time.Time, auditSlice int) *X2Result {
 					if len(hist) > res.MaxDepth {
 						res.MaxDepth = len(hist)
 					}
+					if c.Props["C15"] {
+						addViol(monC15API(w2, post), hist, w2)
+					}
 					var rc *restartCtx
 					if c.Restart {
 						rc = restartPhase1(w2)
